@@ -83,6 +83,20 @@ class MetaB(MetaBase):
     message = 'own registry 7'
 
 
+class SharedRegistryMeta(exc.JsonRpcErrorMeta):
+    """a sub-metaclass WITHOUT a registry of its own (an application combining the library's metaclass with another one, or adding
+    class-creation hooks): its classes are registered in - and resolved through - the global registry like everybody else's"""
+
+
+class SharedBase(exc.JsonRpcError, metaclass=SharedRegistryMeta):
+    pass
+
+
+class SharedA(SharedBase):
+    code = 2101
+    message = 'shared registry 2101'
+
+
 class Replaced2005(exc.JsonRpcError):
     """registered for code 2005 first ..."""
     code = 2005
@@ -120,7 +134,7 @@ class Custom2006Refined(Custom2006):
 GLOBAL: Dict[int, Type[exc.JsonRpcError]] = {
     -32700: exc.ParseError, -32600: exc.InvalidRequestError, -32601: exc.MethodNotFoundError,
     -32602: exc.InvalidParamsError, -32603: exc.InternalError, -32000: exc.ServerError,
-    2001: Custom2001, 2002: Custom2002, 2003: Custom2003, 2004: Custom2004, 2005: Custom2005, 2006: Custom2006Refined, -32050: SrvRange, 3001: IndepA, 0: ZeroCode, 5000: CodedBase,
+    2001: Custom2001, 2002: Custom2002, 2003: Custom2003, 2004: Custom2004, 2005: Custom2005, 2006: Custom2006Refined, -32050: SrvRange, 3001: IndepA, 0: ZeroCode, 5000: CodedBase, 2101: SharedA,
 }
 
 BY_NAME: Dict[str, Type[exc.JsonRpcError]] = {
@@ -128,11 +142,11 @@ BY_NAME: Dict[str, Type[exc.JsonRpcError]] = {
     'MethodNotFoundError': exc.MethodNotFoundError, 'InvalidParamsError': exc.InvalidParamsError,
     'InternalError': exc.InternalError, 'ServerError': exc.ServerError, 'Custom2001': Custom2001, 'Custom2002': Custom2002,
     'Custom2003': Custom2003, 'Custom2004': Custom2004, 'Custom2005': Custom2005, 'Custom2006Refined': Custom2006Refined, 'QuotaError': QuotaError, 'SrvRange': SrvRange, 'PlainBase': PlainBase, 'CodedBase': CodedBase, 'IndepBase': IndepBase,
-    'IndepA': IndepA, 'ZeroCode': ZeroCode, 'MetaBase': MetaBase,
+    'IndepA': IndepA, 'ZeroCode': ZeroCode, 'MetaBase': MetaBase, 'SharedBase': SharedBase, 'SharedA': SharedA,
 }
 
 TYPED = ['ParseError', 'InvalidRequestError', 'MethodNotFoundError', 'InvalidParamsError', 'InternalError', 'ServerError',
-         'Custom2001', 'Custom2002', 'Custom2003', 'Custom2004', 'Custom2005', 'Custom2006Refined', 'SrvRange', 'IndepA', 'ZeroCode']
+         'Custom2001', 'Custom2002', 'Custom2003', 'Custom2004', 'Custom2005', 'Custom2006Refined', 'SrvRange', 'IndepA', 'ZeroCode', 'SharedA']
 REGISTERED_CODES = sorted(GLOBAL)
 
 
